@@ -276,24 +276,23 @@ class BoardPlan:
         return rec
 
 
-def board_conversation(p: str, k: int, plan: BoardPlan, nt: Notation, stop_after: Optional[Tuple[str, int]] = None):
-    """Script items of seat p for board number k (1-based).  stop_after=('call', j) / ('card', j) truncates the board
-    after the j-th call/card (0-based index of the last one performed) - used by the abort scenarios."""
+def board_conversation_marked(p: str, k: int, plan: BoardPlan, nt: Notation):
+    """Script items of seat p for board number k (1-based), each with a mark: ('pre', 0) for the deal part, ('call', i)
+    for everything belonging to the i-th call, ('card', n) for everything belonging to the n-th card (0-based)."""
     F = FORMAL
-    it: List[tuple] = [('recv', 'start', ('start',)),
-                       ('send', nt.spell(f'{F[p]} ready for deal')),
-                       ('recv', 'board', ('board', k, plan.dealer, plan.vul)),
-                       ('send', nt.spell(f'{F[p]} ready for cards')),
-                       ('recv', 'cards', ('cards', p, frozenset(plan.deal[p])))]
+    it: List[tuple] = [(x, ('pre', 0)) for x in (('recv', 'start', ('start',)),
+                                                 ('send', nt.spell(f'{F[p]} ready for deal')),
+                                                 ('recv', 'board', ('board', k, plan.dealer, plan.vul)),
+                                                 ('send', nt.spell(f'{F[p]} ready for cards')),
+                                                 ('recv', 'cards', ('cards', p, frozenset(plan.deal[p]))))]
     for i, call in enumerate(plan.auction):
         a = RA.seat_at(plan.dealer, i)
+        m = ('call', i)
         if a == p:
-            it.append(('send', call_line(p, call, nt)))
+            it.append((('send', call_line(p, call, nt)), m))
         else:
-            it.append(('send', nt.spell(f"{F[p]} ready for {F[a]}'s bid")))
-            it.append(('recv', 'call', ('call', a, call)))
-        if stop_after == ('call', i):
-            return it
+            it.append((('send', nt.spell(f"{F[p]} ready for {F[a]}'s bid")), m))
+            it.append((('recv', 'call', ('call', a, call)), m))
     if plan.contract is None:
         return it
     bid, dbl, decl = plan.contract
@@ -302,21 +301,43 @@ def board_conversation(p: str, k: int, plan: BoardPlan, nt: Notation, stop_after
     for n, c in enumerate(plan.play):
         t, i, s = b.trick_num, len(b.trick), b.active
         ctrl = decl if s == dummy else s
+        m = ('card', n)
         if p == ctrl:
             if i == 0:
-                it.append(('recv', 'lead', ('lead', 'dummy' if s == dummy else s)))
-            it.append(('send', card_line(s, c, nt)))
+                it.append((('recv', 'lead', ('lead', 'dummy' if s == dummy else s)), m))
+            it.append((('send', card_line(s, c, nt)), m))
         else:
             who = 'dummy' if s == dummy else F[s]
-            it.append(('send', nt.spell(f"{F[p]} ready for {who}'s card to trick {t}")))
-            it.append(('recv', 'card', ('card', s, c)))
+            it.append((('send', nt.spell(f"{F[p]} ready for {who}'s card to trick {t}")), m))
+            it.append((('recv', 'card', ('card', s, c)), m))
         if n == 0 and p != dummy:
-            it.append(('send', nt.spell(f'{F[p]} ready for dummy')))
-            it.append(('recv', 'cards', ('cards', 'dummy', frozenset(plan.deal[dummy]))))
+            it.append((('send', nt.spell(f'{F[p]} ready for dummy')), m))
+            it.append((('recv', 'cards', ('cards', 'dummy', frozenset(plan.deal[dummy]))), m))
         b.play(c)
-        if stop_after == ('card', n):
-            return it
     return it
+
+
+def board_conversation(p: str, k: int, plan: BoardPlan, nt: Notation, stop_after: Optional[Tuple[str, int]] = None):
+    """Script items of seat p for board number k (1-based).  stop_after=('call', j) / ('card', j) truncates the board
+    after everything that belongs to the j-th call / card."""
+    out = []
+    order = {'pre': 0, 'call': 1, 'card': 2}
+    for item, m in board_conversation_marked(p, k, plan, nt):
+        if stop_after is not None and (order[m[0]], m[1]) > (order[stop_after[0]], stop_after[1]):
+            break
+        out.append(item)
+    return out
+
+
+def board_conversation_before(p: str, k: int, plan: BoardPlan, nt: Notation, before: Tuple[str, int]):
+    """Items strictly before the given call / card (used by the abort scenarios: the offender departs at `before`)."""
+    out = []
+    order = {'pre': 0, 'call': 1, 'card': 2}
+    for item, m in board_conversation_marked(p, k, plan, nt):
+        if (order[m[0]], m[1]) >= (order[before[0]], before[1]):
+            break
+        out.append(item)
+    return out
 
 
 def admission_conversation(p: str, teams: Dict[str, str], nt: Notation, version: int = 18):
